@@ -33,9 +33,30 @@ def findings():
     return '\n'.join(rows)
 
 
+def status():
+    rows = ['| id | theorems audited (+ from translation tie) | `_partial` theorems | known findings | fixed findings | what the claim says (MANIFEST level_claimed.text, abridged) |', '|---|---|---|---|---|---|']
+    claims = json.load(open(os.path.join(here, 'tools', 'claims.json')))['claimed']
+    for f in sorted(glob.glob(os.path.join(here, 'tools', 'claims.d', '*.json'))):
+        claims[os.path.basename(f)[:-5]] = json.load(open(f))
+    kf = {}
+    for f in sorted(glob.glob(os.path.join(here, 'known_findings.d', '*.json'))):
+        for k in json.load(open(f))['findings']:
+            kf.setdefault(k['property'], {'known': 0, 'fixed': 0})[k['status']] += 1
+    for f in sorted(glob.glob(os.path.join(here, 'lean', 'obligations', '*.json'))):
+        pid = os.path.basename(f)[:-5]
+        o = json.load(open(f))
+        g = o.get('gen', {}).get('theorems', [])
+        rows.append('| %s | %d%s | %s | %d | %d | %s |' % (
+            pid, len(o['theorems']), (' + %d' % len(g)) if g else '',
+            ', '.join('`%s`' % t.split('.')[-1] for t in o.get('partial', [])) or '–',
+            kf.get(pid, {}).get('known', 0), kf.get(pid, {}).get('fixed', 0),
+            claims.get(pid, {}).get('text', '').replace('|', '/').replace('\n', ' ')[:420] + ' …'))
+    return '\n'.join(rows)
+
+
 p = os.path.join(here, 'DESIGN.md')
 s = open(p).read()
-for name, fn in (('seeds', seeds), ('findings', findings)):
+for name, fn in (('seeds', seeds), ('findings', findings), ('status', status)):
     pat = re.compile(r'(<!-- BEGIN:%s -->\n).*?(<!-- END:%s -->)' % (name, name), re.S)
     if pat.search(s):
         s = pat.sub(lambda m: m.group(1) + fn() + '\n' + m.group(2), s)
